@@ -181,7 +181,16 @@ class Model:
             a, b = self.eval(prog[1]), self.eval(prog[2])
             p = prog[3]
             shared = a.cols & b.cols
-            if any(not is_key(c) for c in shared):
+            jopt = prog[4] if len(prog) > 4 and isinstance(prog[4], dict) else {}
+            explicit = jopt.get("minmax")
+            if explicit is not None:
+                # explicit, already resolved equality columns (possibly non-key ones): every column the
+                # operands share has to be one of them, or its value would be ambiguous
+                if not set(explicit) <= shared:
+                    raise ModelError("explicit join columns missing")
+                if shared - set(explicit):
+                    raise Skip("ambiguous_join_column_outside_explicit_columns")
+            elif any(not is_key(c) for c in shared):
                 raise Skip("ambiguous_nonkey_join_column")
             if p is not None and not pcols(p) <= (a.cols | b.cols):
                 raise ModelError("join predicate columns missing")
